@@ -160,6 +160,8 @@ pub fn parse_hook_log(s: &str) -> Vec<HookEvent> {
 pub enum Bin {
     Dev,
     Release,
+    /// Release profile built with -Zsanitizer=address (see checks/asan.rs).
+    Asan,
 }
 
 #[derive(Clone, Debug)]
@@ -280,6 +282,9 @@ pub fn bita_bin(bin: Bin) -> PathBuf {
         Bin::Release => std::env::var_os("BITA_BIN_RELEASE")
             .map(PathBuf::from)
             .unwrap_or_else(|| crate::util::verif_root().join(".build/cli/release/bita")),
+        Bin::Asan => std::env::var_os("BITA_BIN_ASAN")
+            .map(PathBuf::from)
+            .unwrap_or_else(|| crate::util::verif_root().join(".build/asan/x86_64-unknown-linux-gnu/release/bita")),
     }
 }
 
